@@ -1,6 +1,7 @@
 """Per-property configuration: which tables, Coq files, case counts, and the *direct oracle* —
 an independent statement of the property evaluated on the implementation's own outputs
 (search support and replay confirmation; never the claim)."""
+import os
 import re
 
 RAW_OR_STRUCTURED = {"ByteAddressBuffer", "RWByteAddressBuffer", "BufferAddress", "RWBufferAddress",
@@ -1361,4 +1362,96 @@ class C04(Prop):
         return impl.startswith("FIX")
 
 
-PROPS = {p.id: p for p in [C06(), C19(), C11(), C16(), C13(), C10(), C15(), C09(), C12(), C14(), C07(), C17(), C05(), C18(), C04()]}
+def _c08_program(case):
+    import subprocess
+    w = case.split()
+    try:
+        r = subprocess.run([os.path.join(os.path.dirname(os.path.dirname(os.path.abspath(__file__))), ".cache", "target", "debug", "implrun"), "c08show"] + w[1:],
+                           capture_output=True, text=True, errors="replace", timeout=60)
+        return r.stdout
+    except Exception:
+        return ""
+
+
+def _angle_depth(text):
+    d = m = 0
+    for c in text:
+        if c == "<":
+            d += 1
+            m = max(m, d)
+        elif c == ">":
+            d = max(0, d - 1)
+        elif c in ";{}":
+            d = 0
+    return m
+
+
+class C08(Prop):
+    id = "C08"
+    gens = ["GenPanicSites", "GenLexer", "GenEvaluator", "GenNames", "GenBindings"]
+    header = 99          # case lines are seeds: nothing to shrink word by word
+    n_quick = 150
+    n_thorough = 6000
+    design_ref = "DESIGN.md §4 C08"
+    assumptions = [
+        "theorems: the modelled components (lexer, macro expander, file driver with the #include nesting limit, constant evaluator, name generator) never produce their abort / exhaustion values; for the parser, type checker, exporters and formatter there is no model",
+        "the inventory of abort sites (panic!/todo!/unimplemented!/unreachable!/assert*!/unwrap()/expect() per file and function, regenerated from the sources) is pinned to the reviewed table coq/props/C08Sites.v; the sites are not individually proved unreachable",
+        "search (support, not proof): every case runs in a child process on a thread with an 8 MiB stack (the default main-thread stack), debug build with overflow checks, 30 s watchdog; aborts, stack overflows and timeouts are attributed to the case in flight. Inputs: character soups and token soups up to 4 KB, generated programs (valid and with one token-level mutation), short soups in one position of a valid program, nested / repeated constructs (depth 1..500, 2000 in the thorough tier), every repository input unmodified on 5 targets x {all, no-pipeline} and mutated, x {all, named, no-pipeline} x layout validation on/off",
+        "a diagnostic 'renders' when CompileError's Display produces text without panicking (checked on every rejected input)",
+        "time: the watchdog (30 s on a debug build for inputs of at most 4 KB) stands in for 'a small polynomial of the input size'; the largest time seen is recorded",
+    ]
+
+    KNOWN_PANICS = [
+        ("struct-template-export", r"(hlsl/src/ast_generate|msl/src/generator)\.rs:\d+: not yet implemented: RootDefinition::StructTemplate"),
+        ("function-template-default-arguments", r"typer/src/typer/functions\.rs:\d+: not yet implemented: default template arguments"),
+        ("non-type-template-arguments", r"typer/src/typer/types\.rs:\d+: not yet implemented: Non-type template arguments"),
+        ("slot-arithmetic-overflow", r"ir/src/ir_module\.rs:\d+: attempt to (add|multiply) with overflow"),
+        ("non-resource-object-global", r"ir/src/ir_types\.rs:\d+: get_register_type called on non-root object types"),
+    ]
+
+    def kind(self, case):
+        w = case.split()
+        cfg = w[0].split("/")
+        k = w[1] + ((" " + w[2]) if w[1] == "D" else "") + (" mutated" if w[1] in ("P", "M") and w[-1] != "0" else "")
+        return "%s %s" % (k, cfg[0])
+
+    def comparable(self, case, impl, model):
+        return False
+
+    def oracle(self, case, impl, model=None):
+        if impl.startswith("OK") or impl.startswith("ERR") or impl.startswith("BAD"):
+            return None
+        if impl.startswith("PANIC"):
+            return "compile panicked: " + impl[6:300]
+        if impl.startswith("ABORT"):
+            return "compile aborted the process (%s)" % impl[6:100]
+        if impl.startswith("TIMEOUT"):
+            return "compile did not return within the watchdog time"
+        return "unexpected harness output: " + impl[:200]
+
+    def known_class(self, case, impl, model):
+        if impl.startswith("PANIC"):
+            for kid, pat in self.KNOWN_PANICS:
+                if re.search(pat, impl):
+                    return kid
+            return None
+        if impl.startswith("TIMEOUT"):
+            if _angle_depth(_c08_program(case)) >= 16:
+                return "nested-template-arguments-exponential"
+            return None
+        if impl.startswith("ABORT"):
+            text = _c08_program(case)
+            nums = [int(x) for x in re.findall(r"(?:bind_group\(|space|DefaultBindGroup\s*=\s*)(\d+)", text)]
+            if any(n >= (1 << 20) for n in nums) and not case.startswith("Msl") and not case.startswith("Metal"):
+                return "huge-bind-group-index"
+            return None
+        return None
+
+    def nontrivial(self, case, impl):
+        return impl.startswith("OK") or impl.startswith("ERR")
+
+    def replay_extra(self, case):
+        return {"config": case.split()[0], "program": _c08_program(case), "how": "implrun run C08 --cases <file with the case line> --impl <out> (supervised child process); `implrun c08show <words after the configuration>` prints the program"}
+
+
+PROPS = {p.id: p for p in [C06(), C19(), C11(), C16(), C13(), C10(), C15(), C09(), C12(), C14(), C07(), C17(), C05(), C18(), C04(), C08()]}
